@@ -172,22 +172,26 @@ theorem fuel_mono (cfg : ECfg) : ∀ f g, f ≤ g →
         simp only [eval]
         refine le_bind_right _ _ _ (fun _ => le_bind_right _ _ _ (fun v => ?_))
         split
-        · split
+        · rename_i tid name _
+          split
           · exact le_refl _
           · rename_i body _
-            exact le_wrap (eval cfg [] f body) (eval cfg [] g body) (macroEnter body) macroLeave macroRaise (hE [] body)
+            exact le_wrap (eval cfg [] f body) (eval cfg [] g body) (macroEnter tid body) macroLeave macroRaise (hE [] body)
         · exact le_refl _
       | useInternal name =>
         simp only [eval]
         split
         · exact le_refl _
-        · split
-          · exact le_refl _
-          · rename_i body _
-            exact le_wrap (eval cfg [] f body) (eval cfg [] g body)
-              (fun s => macroEnter body { s with x := { s.x with token := none } })
+        · rename_i nm
+          refine le_of_at (fun s hs => ?_)
+          cases hb : lookupAssoc (cfg.macrosOf s.env.topFrame.tid) nm with
+          | none => simp only [hb]
+          | some body =>
+            simp only [hb] at hs ⊢
+            exact (le_wrap (eval cfg [] f body) (eval cfg [] g body)
+              (fun s => macroEnter s.env.topFrame.tid body { s with x := { s.x with token := none } })
               (fun s s' => macroLeave { s with x := { s.x with token := none } } s')
-              (fun s s' => macroRaise { s with x := { s.x with token := none } } s') (hE [] body)
+              (fun s s' => macroRaise { s with x := { s.x with token := none } } s') (hE [] body)).at_ s hs
       | codeBlock src => simp only [eval]; exact le_refl _
     · intro al ns
       cases ns with
